@@ -247,6 +247,11 @@ func runScript(t *testing.T, tr *Tracer, sc *Script) {
 		if sc.MaxWorkers >= 0 {
 			opts = append(opts, vegeta.MaxWorkers(uint64(sc.MaxWorkers)))
 		}
+		if sc.ID%5 == 3 {
+			// an option that starts a helper goroutine of its own (the hourly refresh of the DNS cache, set up on the default
+			// transport before the scripted client takes its place): it is gone with the attack like every other goroutine
+			opts = append([]func(*vegeta.Attacker){vegeta.DNSCaching(time.Hour)}, opts...)
+		}
 		atk := vegeta.NewAttacker(opts...)
 
 		targCalls := 0
